@@ -1319,6 +1319,10 @@ func calleeName(cc *ssa.CallCommon) string {
 	}
 	switch v := cc.Value.(type) {
 	case *ssa.Function:
+		if o := v.Origin(); o != nil {
+			// an instantiation of a generic function: named after the generic declaration
+			return o.String()
+		}
 		return v.String()
 	case *ssa.Builtin:
 		return "builtin." + v.Name()
